@@ -971,6 +971,23 @@ func causeOf(c *caseT, cf config, bad []int, errText string) string {
 		return "class-expr-name-in-eval-scope"
 	case pinNR:
 		return "pinned-nested-name-not-reserved"
+	case cf.JSX && cf.Minify && errText == "" && all(func(k int) bool {
+		// a reference rendered as a JSX tag whose symbol is merged from several declarations
+		// (var redeclared, var or function with the name of a parameter): the "must start with
+		// a capital letter" mark of the merged-away symbol is lost, the tag becomes <n />
+		y := c.Res[k-1]
+		if y == 0 || (k-1)%3 == 2 {
+			return false
+		}
+		n := 0
+		for _, d := range c.Decls {
+			if d.Name == c.Syms[y-1].N && (d.Kind == "var" || d.Kind == "param" || d.Kind == "fun") {
+				n++
+			}
+		}
+		return n >= 2
+	}):
+		return "jsx-capital-mark-lost-on-merged-symbol"
 	case cf.JSX && cf.Minify && (strings.Contains(errText, "has already been declared") ||
 		(errText == "" && all(func(k int) bool { y := c.Res[k-1]; return y == 0 || c.Syms[y-1].Pinned }))):
 		// a symbol used as a JSX tag took a capitalised name that is reserved: every differing
